@@ -1,6 +1,7 @@
 (* Props_C15.v — C15: extra connections to a peer neither duplicate nor reset the exchange (client: Client_proofs4; server: Server_live).
    Statements restated verbatim from the proof files and closed by `exact`; nothing else is proved here. *)
 From BS Require Import Bytes Cid Proto Types Server Server_lemmas Server_inv Server_proofs Server_live Wantlist Client Client_proofs Client_proofs2 Client_proofs3 Client_proofs4.
+From BS Require Import Tie_client Tie_node.   (* tie lemmas: a source edit that changes what they extract breaks this file's closure *)
 Open Scope N_scope.
 
 Theorem C15_new_conn_frame s p c ps :
